@@ -55,3 +55,21 @@ class Running(Transform):
             with torch.no_grad():
                 self.running_mean = torch.lerp(self.running_mean, mean, 0.1)
         return inputs - mean, inputs.new_zeros(inputs.shape[0])
+
+
+class Lazy(Transform):
+    def __init__(self, features):
+        super().__init__()
+        self.gain = nn.Parameter(torch.zeros(features))
+
+    def _setup(self, inputs):
+        with torch.no_grad():
+            self.gain.data = inputs.std(0).log()
+
+    def forward(self, inputs, context=None):
+        if self.training:
+            self._setup(inputs)
+        z = inputs + self.gain
+        s = torch.sigmoid(z)
+        logabsdet = (-F.softplus(-z) - F.softplus(z)).sum(-1)
+        return s, logabsdet
